@@ -207,13 +207,40 @@ Proof.
 Qed.
 
 (* --------------------------------------------------------------- the walk *)
+(* a cache-free copy of the walk: a proof device for the chain lemmas below *)
+Definition import_module0 (fs : node) (sys_path : list path) (names : list str) (parent : option mval)
+  : option mval :=
+  match parent with
+  | None => conv names (find_in fs sys_path (last names []) [])
+  | Some pv => match v_path pv with
+               | None => None
+               | Some ps => conv names (find_in fs ps (last names []) [])
+               end
+  end.
+
+Fixpoint walk0 (fs : node) (sp : list path) (done todo : list str) (parent : option mval) : option mval :=
+  match todo with
+  | [] => parent
+  | n :: rest => match import_module0 fs sp (done ++ [n]) parent with
+                 | None => None
+                 | Some v => walk0 fs sp (done ++ [n]) rest (Some v)
+                 end
+  end.
+
 Section Walk.
 Variable fs : node.
 Variable roots : list path.
 
 Definition P (names : list str) : option mval := conv names (py_import fs roots (join_dot names)).
 
-Definition coherent (c : cache) : Prop := forall k v, cache_get c k = Some v -> P k = Some v.
+Definition coherent (c : cache) : Prop := forall k r, cache_get c k = Some r -> P k = r.
+
+Lemma coherent_add c k : coherent c -> coherent ((k, P k) :: c).
+Proof.
+  intros H k' r Hk. simpl in Hk. destruct (strs_eqb k' k) eqn:E.
+  - apply strs_eqb_eq in E. subst. inversion Hk; auto.
+  - apply H; auto.
+Qed.
 
 Lemma v_path_conv names f v : conv names f = Some v -> v_path v = search_path f.
 Proof.
@@ -221,26 +248,27 @@ Proof.
   unfold dirname. rewrite removelast_last. auto.
 Qed.
 
-Lemma import_module_first c n :
-  coherent c -> valid_name n = true ->
-  import_module fs c roots [n] None = P [n].
+Lemma step_first n : valid_name n = true -> import_module0 fs roots [n] None = P [n].
+Proof. intro V. unfold import_module0, P. simpl join_dot. rewrite py_import_single by auto. auto. Qed.
+
+Lemma step_next done n pv :
+  valid_name n = true -> done <> [] -> P done = Some pv ->
+  import_module0 fs roots (done ++ [n]) (Some pv) = P (done ++ [n]).
 Proof.
-  intros Hc V. unfold import_module.
-  destruct (cache_get c [n]) eqn:E.
-  - symmetry. apply Hc; auto.
-  - unfold P. simpl join_dot. rewrite py_import_single by auto. auto.
+  intros V Hd Hp. unfold import_module0, P. rewrite py_import_snoc by auto. rewrite last_last.
+  unfold P in Hp. rewrite (v_path_conv _ _ _ Hp).
+  destruct (search_path (py_import fs roots (join_dot done))); auto.
 Qed.
 
-Lemma import_module_next c done n pv :
-  coherent c -> valid_name n = true -> done <> [] -> P done = Some pv ->
-  import_module fs c roots (done ++ [n]) (Some pv) = P (done ++ [n]).
+Lemma import_module_cached c names parent :
+  coherent c -> import_module0 fs roots names parent = P names ->
+  fst (import_module fs c roots names parent) = P names /\
+  coherent (snd (import_module fs c roots names parent)).
 Proof.
-  intros Hc V Hd Hp. unfold import_module.
-  destruct (cache_get c (done ++ [n])) eqn:E.
-  - symmetry. apply Hc; auto.
-  - unfold P. rewrite py_import_snoc by auto. rewrite last_last.
-    unfold P in Hp. rewrite (v_path_conv _ _ _ Hp).
-    destruct (search_path (py_import fs roots (join_dot done))); auto.
+  intros Hc H0. unfold import_module. destruct (cache_get c names) eqn:E.
+  - simpl. split; auto. symmetry. apply Hc; auto.
+  - fold (import_module0 fs roots names parent). rewrite H0. simpl. split; auto.
+    apply coherent_add; auto.
 Qed.
 
 Lemma P_none_extends xs ys :
@@ -255,49 +283,80 @@ Proof.
     unfold P in IH. destruct (py_import fs roots (join_dot (xs ++ ys))); simpl in *; try discriminate. auto.
 Qed.
 
-Lemma walk_spec c : coherent c -> forall rest done parent,
-  Forall (fun s => valid_name s = true) rest -> rest <> [] ->
-  (done = [] /\ parent = None \/ done <> [] /\ parent = P done /\ parent <> None) ->
-  walk fs c roots done rest parent = P (done ++ rest).
+Definition walk_inv (done : list str) (parent : option mval) : Prop :=
+  done = [] /\ parent = None \/ done <> [] /\ parent = P done /\ parent <> None.
+
+Lemma step_any done n parent :
+  valid_name n = true -> walk_inv done parent ->
+  import_module0 fs roots (done ++ [n]) parent = P (done ++ [n]).
 Proof.
-  intros Hc. induction rest as [|n rest IH]; intros done parent F Hne Hinv; try congruence.
-  inversion F; subst. cbn [walk].
-  assert (Hstep : import_module fs c roots (done ++ [n]) parent = P (done ++ [n])).
-  { destruct Hinv as [[Hd Hp]|[Hd [Hp Hs]]]; subst.
-    - simpl. apply import_module_first; auto.
-    - destruct (P done) eqn:E; try congruence. apply import_module_next; auto. }
-  rewrite Hstep.
+  intros V [[Hd Hp]|[Hd [Hp Hs]]]; subst.
+  - simpl. apply step_first; auto.
+  - destruct (P done) eqn:E; try congruence. apply step_next; auto.
+Qed.
+
+Lemma walk0_spec : forall rest done parent,
+  Forall (fun s => valid_name s = true) rest -> rest <> [] -> walk_inv done parent ->
+  walk0 fs roots done rest parent = P (done ++ rest).
+Proof.
+  induction rest as [|n rest IH]; intros done parent F Hne Hinv; try congruence.
+  inversion F; subst. cbn [walk0]. rewrite (step_any done n parent) by auto.
   assert (Hdn : done ++ [n] <> []) by (destruct done; simpl; congruence).
   replace (done ++ n :: rest) with ((done ++ [n]) ++ rest) by (rewrite <- app_assoc; auto).
   destruct (P (done ++ [n])) eqn:E.
   - destruct rest as [|n' rest'].
-    + cbn [walk]. rewrite app_nil_r. auto.
+    + cbn [walk0]. rewrite app_nil_r. auto.
     + apply IH; auto; try congruence. right. split; auto. split; congruence.
   - symmetry. apply P_none_extends; auto.
 Qed.
 
+Lemma walk_spec : forall rest c done parent,
+  coherent c ->
+  Forall (fun s => valid_name s = true) rest -> rest <> [] -> walk_inv done parent ->
+  fst (walk fs c roots done rest parent) = P (done ++ rest) /\
+  coherent (snd (walk fs c roots done rest parent)).
+Proof.
+  induction rest as [|n rest IH]; intros c done parent Hc F Hne Hinv; try congruence.
+  inversion F; subst. cbn [walk].
+  destruct (import_module_cached c (done ++ [n]) parent Hc (step_any done n parent H1 Hinv)) as [E1 E2].
+  destruct (import_module fs c roots (done ++ [n]) parent) as [r c'] eqn:Eim. simpl in E1, E2.
+  assert (Hdn : done ++ [n] <> []) by (destruct done; simpl; congruence).
+  replace (done ++ n :: rest) with ((done ++ [n]) ++ rest) by (rewrite <- app_assoc; auto).
+  destruct r as [v|].
+  - destruct rest as [|n' rest'].
+    + cbn [walk]. simpl. rewrite app_nil_r. auto.
+    + apply IH; auto; try congruence. right. split; auto. split; congruence.
+  - simpl. split; auto. symmetry. apply P_none_extends; auto.
+Qed.
+
 Theorem walk_agrees_cache c names :
   coherent c -> names <> [] -> Forall (fun s => valid_name s = true) names ->
-  import_by_names fs c roots names = P names.
+  fst (import_by_names fs c roots names) = P names /\
+  coherent (snd (import_by_names fs c roots names)).
 Proof.
-  intros Hc Hn F. unfold import_by_names. apply (walk_spec c Hc names [] None); auto.
+  intros Hc Hn F. unfold import_by_names. apply (walk_spec names c [] None); auto. left; auto.
 Qed.
+
+Theorem walk0_agrees names :
+  names <> [] -> Forall (fun s => valid_name s = true) names ->
+  walk0 fs roots [] names None = P names.
+Proof. intros Hn F. apply (walk0_spec names [] None); auto. left; auto. Qed.
 
 Lemma coherent_nil : coherent [].
 Proof. intros k v H. simpl in H. discriminate. Qed.
 
 End Walk.
 
-Lemma res_of_conv names f : match conv names f with Some v => res_of_val v | None => RNone end = res_of_found f.
+Lemma res_of_conv names f : res_of_opt (conv names f) = res_of_found f.
 Proof. destruct f; simpl; auto. Qed.
 
 Theorem walk_agrees fs roots names :
   names <> [] -> Forall (fun s => valid_name s = true) names ->
-  match import_by_names fs [] roots names with Some v => res_of_val v | None => RNone end =
+  res_of_opt (fst (import_by_names fs [] roots names)) =
   res_of_found (py_import fs roots (join_dot names)).
 Proof.
-  intros Hn F. rewrite (walk_agrees_cache fs roots [] names (coherent_nil fs roots) Hn F).
-  unfold P. apply res_of_conv.
+  intros Hn F. destruct (walk_agrees_cache fs roots [] names (coherent_nil fs roots) Hn F) as [E _].
+  rewrite E. unfold P. apply res_of_conv.
 Qed.
 
 (* ====================================================================== part 3 *)
@@ -624,19 +683,19 @@ Qed.
 Lemma chain_walk fs roots : forall rest done dir is_pkg,
   done <> [] ->
   chain_ok fs dir rest is_pkg = true ->
-  walk fs [] roots done rest (Some (VMod (dir ++ [s_init_py]) true done)) =
+  walk0 fs roots done rest (Some (VMod (dir ++ [s_init_py]) true done)) =
   Some (VMod (if is_pkg then dir ++ rest ++ [s_init_py]
               else dir ++ removelast rest ++ [last rest [] ++ s_py]) is_pkg (done ++ rest)).
 Proof.
   induction rest as [|n rest IH]; intros done dir is_pkg Hd Hc; try discriminate.
-  cbn [walk]. unfold import_module. cbn [cache_get v_path]. unfold dirname. rewrite removelast_last.
+  cbn [walk0]. unfold import_module0. cbn [v_path]. unfold dirname. rewrite removelast_last.
   rewrite last_last.
   destruct rest as [|n' rest'].
   - cbn [chain_ok] in Hc. destruct (find_one fs dir n) as [f| |] eqn:Ef; try discriminate.
     destruct (find_one_shape _ _ _ _ Ef) as [E|E]; subst f.
-    + destruct is_pkg; try discriminate. rewrite (find_in_single _ _ _ _ Ef). cbn [conv walk].
+    + destruct is_pkg; try discriminate. rewrite (find_in_single _ _ _ _ Ef). cbn [conv walk0].
       rewrite <- app_assoc. auto.
-    + destruct is_pkg; try discriminate. rewrite (find_in_single _ _ _ _ Ef). cbn [conv walk].
+    + destruct is_pkg; try discriminate. rewrite (find_in_single _ _ _ _ Ef). cbn [conv walk0].
       simpl. auto.
   - cbn [chain_ok] in Hc. destruct (find_one fs dir n) as [f| |] eqn:Ef; try discriminate.
     destruct (find_one_shape _ _ _ _ Ef) as [E|E]; subst f; try discriminate.
@@ -654,17 +713,17 @@ Qed.
 
 Lemma unshadowed_walk fs roots r names is_pkg :
   unshadowed fs roots r names is_pkg = true ->
-  import_by_names fs [] roots names =
+  walk0 fs roots [] names None =
   Some (VMod (file_of r names is_pkg) is_pkg names).
 Proof.
-  unfold unshadowed, import_by_names. intro H. apply andb_true_iff in H as [Hw Hc].
+  unfold unshadowed. intro H. apply andb_true_iff in H as [Hw Hc].
   destruct names as [|n rest]; try discriminate.
-  cbn [walk hd] in *. unfold import_module. cbn [cache_get app last].
+  cbn [walk0 hd] in *. unfold import_module0. cbn [app last].
   destruct rest as [|n' rest'].
   - cbn [chain_ok] in Hc. destruct (find_one fs r n) as [f| |] eqn:Ef; try discriminate.
     rewrite (first_wins_find _ _ _ _ _ _ Hw Ef).
     destruct (find_one_shape _ _ _ _ Ef) as [E|E]; subst f; destruct is_pkg; try discriminate;
-      cbn [conv walk]; unfold file_of; simpl; auto. rewrite <- app_assoc. auto.
+      cbn [conv walk0]; unfold file_of; simpl; auto. rewrite <- app_assoc. auto.
   - cbn [chain_ok] in Hc. destruct (find_one fs r n) as [f| |] eqn:Ef; try discriminate.
     destruct (find_one_shape _ _ _ _ Ef) as [E|E]; subst f; try discriminate.
     rewrite (first_wins_find _ _ _ _ _ _ Hw Ef). cbn [conv].
@@ -684,7 +743,8 @@ Proof.
   intros F H.
   assert (Hn : names <> []).
   { intro; subst. unfold unshadowed in H. simpl in H. rewrite andb_false_r in H. discriminate. }
-  rewrite <- walk_agrees by auto. rewrite (unshadowed_walk _ _ _ _ _ H). auto.
+  rewrite <- res_of_conv with (names := names). fold (P fs roots names).
+  rewrite <- walk0_agrees by auto. rewrite (unshadowed_walk _ _ _ _ _ H). auto.
 Qed.
 
 (* ====================================================================== part 5 *)
@@ -798,13 +858,16 @@ Qed.
 
 Lemma follow_coherent fs roots c names :
   coherent fs roots c -> names <> [] -> Forall (fun s => valid_name s = true) names ->
-  follow fs c roots {| i_path := names; i_fixed := None; i_possible := true |} = P fs roots names.
+  exists c', follow fs c roots {| i_path := names; i_fixed := None; i_possible := true |} = (P fs roots names, c')
+             /\ coherent fs roots c'.
 Proof.
   intros Hc Hn F. unfold follow. cbn [i_path i_fixed i_possible negb].
   destruct names as [|n names]; try congruence.
   destruct (cache_get c (n :: names)) eqn:E.
-  - symmetry. apply Hc; auto.
-  - apply walk_agrees_cache; auto.
+  - exists c. split; auto. f_equal. symmetry. apply Hc; auto.
+  - destruct (walk_agrees_cache fs roots c (n :: names) Hc Hn F) as [E1 E2].
+    exists (snd (import_by_names fs c roots (n :: names))). split; auto.
+    rewrite <- E1. apply surjective_pairing.
 Qed.
 
 Lemma py_package_importer self :
@@ -877,8 +940,9 @@ Proof.
   rewrite importer_abs; auto.
   2:{ destruct Hl as [[H0 _]|H]; auto. }
   rewrite app_nil_r.
-  rewrite follow_coherent by (auto using script_cache_coherent).
-  unfold P. apply res_of_conv.
+  destruct (follow_coherent fs roots (script_cache self) (abs_path self q)
+              (script_cache_coherent fs roots self Hs) Ane Av) as [c1 [E1 _]].
+  rewrite E1. unfold P. destruct (py_import fs roots (join_dot (abs_path self q))); simpl; auto.
 Qed.
 
 (* ---- from-import *)
@@ -950,9 +1014,11 @@ Theorem from_import_agrees goto fs roots self q x :
   valid_name x = true ->
   level_ok self q ->
   py_already_imported (importer_of self) (abs_path self q ++ [x]) = false ->
+  found_file (py_import fs roots (join_dot (abs_path self q))) <> v_file self ->
+  v_file self <> [] ->
   jedi_query goto fs roots self q = py_query fs roots (importer_of self) q.
 Proof.
-  intros Hn Hp Hs Fb Fp Vx Hl Hanc.
+  intros Hn Hp Hs Fb Fp Vx Hl Hanc Hnotself Hfile.
   destruct self as [f p names|]; try contradiction.
   set (self := VMod f p names) in *.
   destruct (abs_path_props self q Fb Fp Hl) as [Ane Av].
@@ -964,51 +1030,67 @@ Proof.
   rewrite split_on_join by auto. rewrite Hanc.
   replace (q_path q) with (q_path q ++ []) at 1 by apply app_nil_r.
   rewrite !importer_abs by auto. rewrite app_nil_r.
-  assert (Av' : Forall (fun s => valid_name s = true) (abs_path self q ++ [x])).
-  { apply Forall_app; split; auto. }
-  assert (Ane' : abs_path self q ++ [x] <> []) by (destruct (abs_path self q); simpl; congruence).
-  rewrite !follow_coherent by auto.
   set (A := abs_path self q) in *.
-  rewrite <- join_dot_snoc by auto.
+  assert (Av' : Forall (fun s => valid_name s = true) (A ++ [x])).
+  { apply Forall_app; split; auto. }
+  assert (Ane' : A ++ [x] <> []) by (destruct A; simpl; congruence).
+  destruct (follow_coherent fs roots (script_cache self) A Hc Ane Av) as [c1 [E1 Hc1]].
+  rewrite E1. rewrite <- join_dot_snoc by auto.
+  (* whatever cache the fallback / sub-module import starts from, it yields P (A ++ [x]) *)
+  assert (Hfb : forall c, coherent fs roots c ->
+            fst (follow fs c roots {| i_path := A ++ [x]; i_fixed := None; i_possible := true |})
+            = P fs roots (A ++ [x])).
+  { intros c Hcc. destruct (follow_coherent fs roots c (A ++ [x]) Hcc Ane' Av') as [c' [E _]].
+    rewrite E. auto. }
+  assert (Hres : res_of_opt (P fs roots (A ++ [x])) = res_of_found (py_import fs roots (join_dot (A ++ [x])))).
+  { unfold P. apply res_of_conv. }
+  assert (Hsubf : forall v, v_package v = A -> forall c, sub_follow fs c roots v x =
+            follow fs c roots {| i_path := A ++ [x]; i_fixed := None; i_possible := true |}).
+  { intros v Hv c. unfold sub_follow. rewrite mk_importer_valid_level.
+    2:{ rewrite Hv. destruct A; simpl; try congruence. lia. }
+    rewrite Hv. replace (length A - (1 - 1)) with (length A) by lia. rewrite firstn_all. auto. }
   unfold P at 1. destruct (py_import fs roots (join_dot A)) as [file|d|ds|] eqn:Ef; cbn [conv]; auto.
   - (* a plain module: attribute or nothing *)
+    cbn [found_file] in Hnotself. change (v_file self) with f in *. cbn [v_file].
+    replace (strs_eqb file f) with false.
+    2:{ symmetry. apply not_true_iff_false. intro E. apply strs_eqb_eq in E. auto. }
     unfold getattr. cbn [v_path found_attrs found_file search_path].
     destruct (assoc x (file_attrs fs file)); auto.
+        rewrite Hfb by auto.
     assert (HP : P fs roots A = Some (VMod file false A)) by (unfold P; rewrite Ef; auto).
     rewrite (P_snoc fs roots A x _ Ane Vx HP). cbn [v_path]. auto.
   - (* a regular package *)
     assert (HP : P fs roots A = Some (VMod (d ++ [s_init_py]) true A)) by (unfold P; rewrite Ef; auto).
+    cbn [found_file] in Hnotself. change (v_file self) with f in *. cbn [v_file].
+    replace (strs_eqb (d ++ [s_init_py]) f) with false.
+    2:{ symmetry. apply not_true_iff_false. intro E. apply strs_eqb_eq in E. auto. }
     unfold getattr. cbn [v_path found_attrs found_file search_path].
     destruct (assoc x (file_attrs fs (d ++ [s_init_py]))); auto.
-    unfold sub_follow. rewrite mk_importer_valid_level.
-    2:{ cbn [v_package]. destruct A; simpl; try congruence. lia. }
-    cbn [v_package]. replace (length A - (1 - 1)) with (length A) by lia. rewrite firstn_all.
-    rewrite follow_coherent by auto.
+    rewrite (Hsubf (VMod (d ++ [s_init_py]) true A) eq_refl).
     destruct (has_sub fs [dirname (d ++ [s_init_py])] x) eqn:Hsub.
     + pose proof (P_snoc fs roots A x _ Ane Vx HP) as Hx. cbn [v_path] in Hx.
       pose proof (has_sub_found fs x _ [] Hsub) as Hf.
       assert (Hsome : exists v', P fs roots (A ++ [x]) = Some v').
       { rewrite Hx. destruct (find_in fs [dirname (d ++ [s_init_py])] x []); try congruence; cbn [conv]; eauto. }
-      destruct Hsome as [v' Hv]. rewrite Hv.
-      pose proof (res_of_conv (A ++ [x]) (py_import fs roots (join_dot (A ++ [x])))) as R.
-      fold (P fs roots (A ++ [x])) in R. rewrite Hv in R. auto.
-    + unfold P. apply res_of_conv.
+      destruct Hsome as [v' Hv].
+      destruct (follow_coherent fs roots c1 (A ++ [x]) Hc1 Ane' Av') as [c2 [E2 _]].
+      rewrite E2, Hv. rewrite <- Hres, Hv. auto.
+    + rewrite Hfb by auto. auto.
   - (* a namespace package *)
     assert (HP : P fs roots A = Some (VNs A ds)) by (unfold P; rewrite Ef; auto).
+    change (v_file self) with f in *. cbn [v_file]. replace (strs_eqb [] f) with false.
+    2:{ symmetry. apply not_true_iff_false. intro E. apply strs_eqb_eq in E. auto. }
     unfold getattr. cbn [v_path found_attrs found_file search_path assoc].
-    unfold sub_follow. rewrite mk_importer_valid_level.
-    2:{ cbn [v_package]. destruct A; simpl; try congruence. lia. }
-    cbn [v_package]. replace (length A - (1 - 1)) with (length A) by lia. rewrite firstn_all.
-    rewrite follow_coherent by auto.
+    rewrite (Hsubf (VNs A ds) eq_refl).
     destruct (has_sub fs ds x) eqn:Hsub.
     + pose proof (P_snoc fs roots A x _ Ane Vx HP) as Hx. cbn [v_path] in Hx.
       pose proof (has_sub_found fs x _ [] Hsub) as Hf.
       assert (Hsome : exists v', P fs roots (A ++ [x]) = Some v').
       { rewrite Hx. destruct (find_in fs ds x []); try congruence; cbn [conv]; eauto. }
-      destruct Hsome as [v' Hv]. rewrite Hv.
-      pose proof (res_of_conv (A ++ [x]) (py_import fs roots (join_dot (A ++ [x])))) as R.
-      fold (P fs roots (A ++ [x])) in R. rewrite Hv in R. auto.
-    + unfold P. apply res_of_conv.
+      destruct Hsome as [v' Hv].
+      destruct (follow_coherent fs roots c1 (A ++ [x]) Hc1 Ane' Av') as [c2 [E2 _]].
+      rewrite E2, Hv. rewrite <- Hres, Hv. auto.
+    + rewrite Hfb by auto. auto.
 Qed.
 
 (* ====================================================================== part 7 *)
@@ -1035,7 +1117,8 @@ Proof.
   rewrite split_on_join by auto. rewrite Hanc.
   replace (q_path q) with (q_path q ++ []) at 1 by apply app_nil_r.
   rewrite importer_abs by auto. rewrite app_nil_r.
-  rewrite follow_coherent by auto.
+  destruct (follow_coherent fs roots (script_cache self) (abs_path self q) Hc Ane Av) as [c1 [E1 _]].
+  rewrite E1.
   unfold P. destruct (py_import fs roots (join_dot (abs_path self q))) as [file|d|ds|] eqn:Ef;
     cbn [conv found_attrs found_file]; auto.
   exfalso. apply (Hns ds). auto.
